@@ -282,6 +282,97 @@ def work_lang(arg):
     return u
 
 
+# ---- fourth family: models given as strings (registered in the global repository under invented names) and root objects with __eq__
+def run_string_case(phase, earlier, eq_root):
+    from textx import metamodel_from_str
+    from textx.scoping import providers as P
+
+    d = os.path.join(core.rundir(), "c18s-%d" % os.getpid())
+    os.makedirs(d, exist_ok=True)
+    for f in os.listdir(d):
+        os.remove(os.path.join(d, f))
+    with open(os.path.join(d, "lib.m"), "w") as f:
+        f.write("def l1\n")
+    classes = None
+    if eq_root:
+        class Model:  # root user class comparing by content: two different models may compare equal
+            def __init__(self, **kw):
+                self.__dict__.update(kw)
+
+            def __eq__(self, other):
+                return isinstance(other, Model) and [x.name for x in self.defs] == [x.name for x in other.defs]
+
+            __hash__ = object.__hash__
+        classes = [Model]
+    mm = metamodel_from_str(mfiles.GRAMMAR, global_repository=True, classes=classes)
+
+    def defproc(obj):
+        if obj.name == "boom":
+            raise ValueError("object processor failure")
+
+    def modelproc(model, metamodel):
+        if any(x.name == "failmodel" for x in model.defs):
+            raise ValueError("model processor failure")
+    mm.register_obj_processors({"Def": defproc})
+    mm.register_model_processor(modelproc)
+    mm.register_scope_providers({"*.*": P.PlainNameGlobalRepo(os.path.join(d, "lib*.m"))})
+    broken = {"syntax": "def s2\nref r -> -> l1\n", "unresolved": "def s2\nref r -> nope\n", "procfail": "def s2\ndef boom\nref r -> l1\n",
+              "modelproc": "def s2\ndef failmodel\nref r -> l1\n"}[phase]
+    obs = {"family": "string models", "phase": phase, "earlier": earlier, "root_with_eq": eq_root}
+    bad = []
+
+    def repo():
+        return {os.path.basename(str(k)): v for k, v in mm._tx_model_repository.all_models.filename_to_model.items()}
+    try:
+        m1 = None
+        if earlier == "string":
+            m1 = mm.model_from_str("def s2\nref r -> l1\n")  # same definitions as the failing model: equal under the user's __eq__
+        elif earlier == "file":
+            with open(os.path.join(d, "good.m"), "w") as f:
+                f.write("def s2\nref r -> l1\n")
+            m1 = mm.model_from_file(os.path.join(d, "good.m"))
+        before = repo()
+        try:
+            mm.model_from_str(broken)
+            bad.append(("load with a failing model succeeded",))
+        except Exception as e:
+            obs["error"] = "%s: %s" % (type(e).__name__, str(e).replace(d, "<dir>")[:100])
+            if phase != "syntax" and type(e).__name__ == "TextXSyntaxError":
+                raise core.HarnessError("string family, phase %s: %s" % (phase, obs["error"]))
+        after = repo()
+        lost = sorted(k for k in before if after.get(k) is not before[k])
+        extra = sorted(k for k in after if k not in before)
+        if lost:
+            bad.append(("models of earlier successful loads lost or replaced", lost))
+        if extra:
+            bad.append(("models of the failed attempt left in the global repository", extra))
+        m2 = mm.model_from_str("def s3\nref r -> l1\n")
+        if m2.refs[0].target is None or m2.refs[0].target.name != "l1":
+            bad.append(("load after the failure",))
+        if m1 is not None and m1.refs[0].target is not m2.refs[0].target and "lib.m" in before:
+            bad.append(("library model loaded twice",))
+    except core.HarnessError:
+        raise
+    except Exception as e:
+        import traceback
+
+        bad.append(("exception", "%s: %s" % (type(e).__name__, str(e).replace(d, "<dir>")), traceback.format_exc()[-300:]))
+    obs["failures"] = bad[:3]
+    return not bad, obs
+
+
+def work_string(arg):
+    u = Unit()
+    for c in arg:
+        with watchdog(30):
+            ok, obs = run_string_case(*c)
+        u.case(["strings"] + list(c), nontrivial=True, sample=obs)
+        u.count("string family phase:%s -> %s" % (c[0], obs.get("error", "no error").split(":")[0]))
+        if not ok:
+            u.fail(["strings"] + list(c), {"strings": list(c)}, sig="strings %s | %s %s" % (obs["failures"][0][0], c[0], c[1]), what=str(obs)[:500])
+    return u
+
+
 def work_index(arg):
     u = Unit()
     for c in arg:
@@ -328,6 +419,8 @@ def run(ctx):
     icases = [(ph, gr, leaf, earlier, prov) for ph in PHASES for gr in (False, True) for leaf in ("b_leaf", "z_leaf") for earlier in (False, True)
               for prov in ("PlainNameGlobalRepo", "FQNGlobalRepo")]
     ctx.pmap(work_index, [icases[i:i + 4] for i in range(0, len(icases), 4)])
+    scases = [(ph, earlier, eq) for ph in PHASES for earlier in (None, "string", "file") for eq in (False, True)]
+    ctx.pmap(work_string, [scases[i:i + 4] for i in range(0, len(scases), 4)])
     lcases = [(ph, bf, ga, gl) for ph in PHASES for bf in ("f0.app", "f1.lib") for ga in (False, True) for gl in (False, True)]
     ctx.pmap(work_lang, [lcases[i:i + 4] for i in range(0, len(lcases), 4)])
     return {
@@ -344,5 +437,7 @@ def replay(p):
         return run_index_case(*p["index"])
     if "languages" in p:
         return run_lang_case(*p["languages"])
+    if "strings" in p:
+        return run_string_case(*p["strings"])
     g = tuple(tuple(x) for x in p["graph"])
     return run_case(g, p["bad_file"], p["phase"], p["grepo"], p["history"], p.get("provider", "plain"))
